@@ -159,6 +159,22 @@ func receive(st *core.Stats, schema *jsonapi.Schema, method, rawURL string, data
 	return req, err, body, p
 }
 
+// warmUp optionally lets the receiver process (and reject) a damaged copy of the
+// message on the same schema first: what a receiver does after an error, or the
+// second time it sees a type, must not differ from the first time. The outcome of
+// the damaged delivery is C05's business, not judged here.
+func warmUp(t *core.Tape, st *core.Stats, schema *jsonapi.Schema, method, rawURL string, msg []byte) {
+	if !t.Bool(1, 3) {
+		return
+	}
+
+	kind := []string{wire.FTruncate, wire.FCorrupt, wire.FSender, wire.FLoss}[t.Draw(4)]
+	bad, errAt, _ := wire.Apply(t, kind, msg, msg)
+	st.Inc("probe:damaged-delivery-first")
+
+	_, _, _, _ = receive(st, schema, method, rawURL, bad, drawDelivery(t), errAt, core.DrawMapOrder(t), time.UTC)
+}
+
 // ---------------------------------------------------------------------------------------------
 // C01
 
@@ -233,6 +249,8 @@ func runC01(t *core.Tape, st *core.Stats) *core.Violation {
 	if loc != time.UTC {
 		st.Inc("probe:zone-non-utc")
 	}
+
+	warmUp(t, st, schema, "POST", rawURL, msg)
 
 	dl := drawDelivery(t)
 
@@ -546,6 +564,8 @@ func runC02(t *core.Tape, st *core.Stats) *core.Violation {
 		method = "PATCH"
 		st.Inc("probe:method-PATCH")
 	}
+
+	warmUp(t, st, schema, method, ds.RawURL(nil), msg)
 
 	dl := drawDelivery(t)
 
